@@ -259,6 +259,27 @@ func c12(e *Env) {
 					r.Violate(fmt.Sprintf("C12/decoder-accepts-unregistered-key/%s", tb.QName), "C12/decoder-accepts-unregistered-key/"+tb.QName, map[string]any{"type": owner.QName, "table": tb.QName, "key": fmtKey(key), "error": fmt.Sprint(derr), "panic": fmt.Sprint(p), "body_after": fmt.Sprint(!body.IsNil()), "image": val.Hex(img, 120)})
 				}
 				acc.merge(map[string]int{"unregistered:decode-rejected": 1})
+				// the same unknown-key image followed by a perfectly valid message of the owner type: still an error,
+				// the decoder must not resynchronise on the next message
+				if vimg, verr := e.C.Encode(owner, g.Value(owner)); verr == nil {
+					d2 := e.C.New[owner.QName]()
+					both := append(append([]byte(nil), img...), vimg...)
+					derr2, p2 := LibDecode(d2, bytes.NewBuffer(both))
+					r.Evals(1)
+					if p2 != nil || derr2 == nil {
+						r.Violate(fmt.Sprintf("C12/decoder-skips-unregistered-key-when-more-follows/%s", tb.QName), "C12/decoder-skips-unregistered-key-when-more-follows/"+tb.QName, map[string]any{"type": owner.QName, "table": tb.QName, "key": fmtKey(key), "panic": fmt.Sprint(p2), "buffer": "image with the unregistered key, then a valid " + owner.QName})
+					}
+				}
+				// ... and cut right where the body would start (nothing follows the fixed part)
+				if _, used, toks, _ := e.C.Decode(owner, img, true); used > 0 && len(toks) > 0 {
+					cut := toks[len(toks)-1].Off + toks[len(toks)-1].W
+					d3 := e.C.New[owner.QName]()
+					derr3, p3 := LibDecode(d3, bytes.NewBuffer(append([]byte(nil), img[:cut]...)))
+					r.Evals(1)
+					if p3 != nil || derr3 == nil {
+						r.Violate(fmt.Sprintf("C12/decoder-accepts-unregistered-key-at-end-of-input/%s", tb.QName), "C12/decoder-accepts-unregistered-key-at-end-of-input/"+tb.QName, map[string]any{"type": owner.QName, "table": tb.QName, "key": fmtKey(key), "panic": fmt.Sprint(p3), "image": val.Hex(img[:cut], 160)})
+					}
+				}
 			}
 		}
 		// encode with nil body
